@@ -1,7 +1,10 @@
 (* C01 — All bosonic simulators agree on photon-number statistics (algebraic core).
    Only statements closed by [exact]; proofs live in C01/. *)
-From Coq Require Import ZArith QArith List Ring.
-From PV Require Import Comb.FockModel C01.PermModel C01.PermProofs C01.TableProofs C01.SymProofs C01.GaussZ.
+From Coq Require Import ZArith QArith List Ring Reals.
+From PV Require Import Comb.FockModel C16.IndexModel C16.IndexProofs C16.ApplyProofs C16.GateSem
+  C08.PhysModel C08.PhysProofs C08.FockProofs
+  C01.PermModel C01.PermProofs C01.TableProofs C01.SymProofs C01.EmbedModel C01.EmbedProofs
+  C01.OnModesProofs C01.PruneModel C01.PruneProofs C01.PbkProofs C01.GaussZ.
 Import ListNotations.
 Local Open Scope nat_scope.
 
@@ -81,6 +84,117 @@ Theorem C01_rep_equals_slos :
   repB A a0 a1 aadd amul U (total t) t s = slos_amp A a0 a1 aadd amul U s t.
 Proof. exact rep_equals_slos. Qed.
 Print Assumptions C01_rep_equals_slos.
+
+(* ---- rep_on_modes ---------------------------------------------------------------------
+   the permanent (with multiplicities) of the d x d matrix that embeds a k x k block G at an
+   ordered subset ms of the modes (passive/simulation_steps.py:_apply_matrix_on_modes)
+   factorises: zero unless the occupation numbers outside ms agree, and then
+   (product of their factorials) x permanent of G on the occupation numbers gathered at ms *)
+Theorem C01_embedded_permanent_factorises :
+  forall (A : Type) (a0 a1 : A) (aadd amul asub : A -> A -> A) (aopp : A -> A),
+  ring_theory a0 a1 aadd amul asub aopp (@eq A) ->
+  forall (G : list (list A)) (d : nat) (ms : list nat), modes_ok d ms ->
+  forall (n : nat) (v v' : list nat),
+  length v = d -> length v' = d -> total v = n -> total v' = n ->
+  PM A a0 a1 aadd amul (embed A a0 G a1 ms d) v v' = embed_formula A a0 a1 aadd amul G d ms v v'.
+Proof. exact embed_PM. Qed.
+Print Assumptions C01_embedded_permanent_factorises.
+
+Theorem C01_PM_is_perm_mult :
+  forall (A : Type) (a0 a1 : A) (aadd amul : A -> A -> A) (U : list (list A)) (t s : list nat),
+  PM A a0 a1 aadd amul U t s = perm_mult A a0 a1 aadd amul U t s.
+Proof. exact PM_perm_mult. Qed.
+Print Assumptions C01_PM_is_perm_mult.
+
+(* what the Fock simulators execute (C16: apply_index_list through index_list ms d c is
+   gate_apply): with the sector tables of the k x k block, the new entry at v is the sum over
+   the occupation numbers u' on ms of perm(G; v|ms, u') x old entry at v[ms := u'] ... *)
+Theorem C01_apply_tables_on_modes :
+  forall (A : Type) (a0 a1 : A) (aadd amul asub : A -> A -> A) (aopp : A -> A),
+  ring_theory a0 a1 aadd amul asub aopp (@eq A) ->
+  forall (G : list (list A)) (d k c : nat) (ms : list nat) (st : list A),
+  modes_ok d ms -> length ms = S k -> length G = S k -> 2 <= c ->
+  length st = length (basis d c) ->
+  forall v : list Z, In v (basis d c) ->
+  nth (Z.to_nat (fock_index v))
+      (apply_index_list A a0 aadd amul (index_list ms d c) (rep_tables A a0 a1 aadd amul G (S k) c) st) a0
+  = sumA A a0 aadd
+      (fun u' => amul (PM A a0 a1 aadd amul G (toN (gz v ms)) (toN u'))
+                      (sem_psi A a0 st (scatter v ms u')))
+      (sector (S k) (Z.to_nat (sumZ (gz v ms)))).
+Proof. exact apply_tables_on_modes. Qed.
+Print Assumptions C01_apply_tables_on_modes.
+
+(* ... which, times the factorials of the spectator occupation numbers, is the permanent
+   formula of the embedded d x d matrix *)
+Theorem C01_apply_tables_is_embedded_permanent :
+  forall (A : Type) (a0 a1 : A) (aadd amul asub : A -> A -> A) (aopp : A -> A),
+  ring_theory a0 a1 aadd amul asub aopp (@eq A) ->
+  forall (G : list (list A)) (d k c : nat) (ms : list nat) (st : list A),
+  modes_ok d ms -> length ms = S k -> length G = S k -> 2 <= c ->
+  length st = length (basis d c) ->
+  forall v : list Z, In v (basis d c) ->
+  amul (nA A a0 a1 aadd (fact_list (toN (gz v (aux_modes d ms)))))
+       (nth (Z.to_nat (fock_index v))
+            (apply_index_list A a0 aadd amul (index_list ms d c) (rep_tables A a0 a1 aadd amul G (S k) c) st) a0)
+  = sumA A a0 aadd
+      (fun u' => amul (PM A a0 a1 aadd amul (embed A a0 G a1 ms d) (toN v) (toN (scatter v ms u')))
+                      (sem_psi A a0 st (scatter v ms u')))
+      (sector (S k) (Z.to_nat (sumZ (gz v ms)))).
+Proof. exact apply_tables_is_embedded_permanent. Qed.
+Print Assumptions C01_apply_tables_is_embedded_permanent.
+
+(* ---- SLOS with post-selection pruning --------------------------------------------------
+   every predecessor of an entry kept at level k+1 is kept at level k: a pruned basis entry
+   never contributes to a kept one *)
+Theorem C01_prune_step :
+  forall (cons : list (nat * nat)) (lim i : nat) (t : list nat),
+  NoDup (map fst cons) -> kept cons lim t = true -> kept cons (S lim) (dec_at i t) = true.
+Proof. exact prune_step. Qed.
+Print Assumptions C01_prune_step.
+
+(* the pruned recurrence equals the unpruned one on every kept entry, at every level *)
+Theorem C01_slos_pruned_is_slos :
+  forall (A : Type) (a0 a1 : A) (aadd amul : A -> A -> A)
+         (U : list (list A)) (cons : list (nat * nat)) (n : nat),
+  NoDup (map fst cons) -> forall sched t : list nat,
+  length sched <= n -> kept cons (n - length sched) t = true ->
+  slosP A a0 a1 aadd amul U cons n sched t = slosB A a0 a1 aadd amul U sched t.
+Proof. exact slosP_correct. Qed.
+Print Assumptions C01_slos_pruned_is_slos.
+
+(* and the vector over the pruned basis that the code computes (index_map lookups, gather
+   form) is, entry by entry, the unpruned SLOS amplitude (= the permanent, by
+   C01_slos_is_permanent) *)
+Theorem C01_slos_vector_pruned :
+  forall (A : Type) (a0 a1 : A) (aadd amul : A -> A -> A)
+         (U : list (list A)) (d : nat) (cons : cons_t) (n : nat),
+  NoDup (map fst cons) -> forall s : list nat,
+  total s = n -> deficit cons (repeat 0 (S d)) <= n ->
+  slos_vector_pruned A a0 a1 aadd amul U (S d) cons s
+  = map (slos_amp A a0 a1 aadd amul U s) (bases_spec (S d) cons n n).
+Proof. exact slos_vector_pruned_correct. Qed.
+Print Assumptions C01_slos_vector_pruned.
+
+(* the recursive enumeration of partitions_bounded_k (_fill_partitions_bounded_k_recursive:
+   descending values per box, early exit when the accumulated difference exceeds k_limit,
+   last box takes the rest) lists exactly the vectors of the sector that satisfy the bounds
+   and the difference condition, in the order of the sector - for all bounds / constrained
+   flags / targets with bound <= target on constrained boxes, every d >= 1, every particle
+   number and every k_limit *)
+Theorem C01_partitions_bounded_k_enumeration :
+  forall (d : nat) (bs : list nat) (cs : list bool) (ts : list nat) (rem : nat) (diff lim : Z),
+  length bs = S d -> length cs = S d -> length ts = S d -> okbt bs cs ts ->
+  pbk_fill bs cs ts rem diff lim = filter (Pb bs cs ts diff lim) (sectorN (S d) rem).
+Proof. exact pbk_fill_is_filtered_sector. Qed.
+Print Assumptions C01_partitions_bounded_k_enumeration.
+
+(* ---- attenuator: on the diagonal the weights sum_k C(n,k) cos^{2n} tan^{2k} that
+   redistribute the population of level n sum to one (over R; proved in C08) *)
+Theorem C01_attenuator_trace : forall (c2 t2 : R) (n : nat),
+  (c2 * (1 + t2) = 1)%R -> sumn ROps (S n) (fun k => att_weight ROps c2 t2 n k) = 1%R.
+Proof. exact attenuator_weights_sum. Qed.
+Print Assumptions C01_attenuator_trace.
 
 (* non-vacuity: the hypotheses are satisfiable (Z is such a ring) and the objects are the
    expected ones on concrete inputs *)
